@@ -60,6 +60,7 @@ type Violation struct {
 	Witness   string `json:"witness"`   // expected vs observed
 	Case      any    `json:"case,omitempty"`
 	Fatal     bool   `json:"fatal,omitempty"` // worker process died while running the case
+	Kind      string `json:"kind,omitempty"`  // leading words of the witness (for histograms / de-duplication of reports)
 }
 
 func (v *Violation) Key() string {
@@ -176,24 +177,32 @@ func (c *Ctx) Violate(sig, format string, a ...any) {
 	defer c.mu.Unlock()
 	c.res.VioCount[sig]++
 	c.nvio++
+	kind := w
+	if i := strings.IndexAny(kind, "(:="); i > 0 {
+		kind = kind[:i]
+	}
+	if len(kind) > 40 {
+		kind = kind[:40]
+	}
+	c.res.Counters["VIO["+sig+"] "+kind]++
 	if c.Verbose {
 		fmt.Printf("  ! VIOLATED [%s] %s\n", sig, w)
 	}
 	// keep at most a handful of full records per signature per shard
 	n := 0
 	for _, v := range c.res.Violations {
-		if v.Signature == sig {
+		if v.Signature == sig && v.Kind == kind {
 			n++
 		}
 	}
-	if n >= 5 {
+	if n >= 3 {
 		return
 	}
 	desc := c.desc
 	if desc == nil {
 		desc = c.trace
 	}
-	c.res.Violations = append(c.res.Violations, &Violation{Property: c.Prop.ID, Tier: c.Tier, Seed: c.Seed, Idx: c.Idx, Signature: sig, Witness: w, Case: desc})
+	c.res.Violations = append(c.res.Violations, &Violation{Property: c.Prop.ID, Tier: c.Tier, Seed: c.Seed, Idx: c.Idx, Signature: sig, Witness: w, Case: desc, Kind: kind})
 }
 
 // Violated reports whether this case already recorded a violation.
